@@ -302,6 +302,11 @@ CHECKS = {
     technique='runtime monitoring: invariant monitor: copy_term/3 snapshots of a prepared state (term copy plus residual goals) and of the global variables before and after a failing / backtracked / abandoned context',
     text='A state consisting of an older unbound variable, a partially bound structure, a bound constant, an attributed variable (none, dif/2, freeze/2 or both) and two global variables is snapshotted, a random sequence of 1-6 binding, aliasing, constraint-posting and global-variable actions is run inside one of 9 contexts that fail or are abandoned (negation, double negation, failing if-then-else condition, findall/3, catch/3 recovery after a throw, exhausted disjunction, forall/2, once/1 followed by failure, two contexts nested), and the state is snapshotted again; the snapshots must be variants including residual goals, the bb_b_put/2 variable must be back at its old value and the bb_put/2 variable must hold the last value written. Every test body runs both as a compiled clause (permanent variables) and as a called term (heap variables).',
     note='Action sequences are generated so that no action can fail, which makes the expected value of the non-backtrackable global variable known.'),
+ 'C12': dict(
+    level='exploration',
+    technique='runtime monitoring: event-trace monitor (assertz log that survives backtracking and exceptions) checked against a Python model of ISO 7.8.9/7.8.10 for catch/throw, plus counting invariants for setup_call_cleanup/3 and shape checks for builtin errors',
+    text='(a) Random goal trees (depth <= 4) over logging steps, two-way logged alternatives, bindings, throw/1 with balls of eight shapes (atoms, integers, structures with bound/unbound/shared variables, error/2 terms, lists) and catch/3 with matching, more general, variable and non-unifying catchers, mixed with conjunction, disjunction, once/1, negation, if-then-else and findall/3, are run to exhaustion; the event trace, the number of solutions or the uncaught ball, the ball copy seen by the recovery goal and the bindings visible there must equal the model. (b) 63 combinations of setup_call_cleanup/3 goals (deterministic exit, failure, exception, alternatives, alternatives then failure/exception) and contexts (exhaustion, once/1, failing conjunction, catch/3, if-then-else, negation, nesting, later throw, later cut): every activation must log its cleanup exactly once and after its setup. (c) 61 builtin misuse goals: whatever is raised must be error(Formal, Context) with an ISO formal.',
+    note='The position of a cleanup relative to unrelated events is not asserted (only for the deterministic-exit case run alone). Logged terms are compared up to renaming per log entry.'),
 }
 
 NOT_APPLICABLE_REASON_UNBUILT = ('check designed in DESIGN.md but not built/validated yet in this session; '
